@@ -9,7 +9,6 @@
  *   epoll_ctl() records whether write interest (EPOLLOUT) is registered for the user fd.
  *
  * Commands: sendres / write / vwrite / flush / cycle / wready / close / peerclose / peerfin / dump
- * (+ peerfin_raw: peerfin through the unmodified process_io, which has a use-after-free)
  * (see props/c14.py for the trace format).
  */
 #include "vh.h"
@@ -184,16 +183,6 @@ static void c14_setup (void)
   port.port = 4000;
   port.fd = INVALID_SOCKET_FD;
 
-  /* Pre-size the user table (as a console-mode start-up does).  Without this the very first network user makes
-   * new_interactive() CALLOCATE 50 slots and then clear slots 0..50: an 8 byte heap overflow at comm.c
-   * `while (max_users < i + 50) all_users[max_users++] = 0;` with i == 1 (reported by ASan; not part of C14). */
-  if (!all_users)
-    {
-      all_users = CALLOCATE (50, interactive_t *, TAG_USERS, "c14 harness");	/* not zeroed by the macro */
-      for (max_users = 0; max_users < 50; max_users++)
-        all_users[max_users] = 0;
-    }
-
   eval_cost = CONFIG_INT (__MAX_EVAL_COST__);
   VH_TRY (econ)
     setup_accepted_connection (&port, c14_fd[0], &addr);
@@ -240,44 +229,6 @@ static void poll_and_process (void)
   VH_TRY (econ)
     if (do_comm_polling (&tv) > 0)
       process_io ();
-  VH_CATCH (econ)
-    out ("lpcerr");
-  VH_END
-}
-
-/* Same dispatch as the interactive-user branch of process_io(), but the "is ip still valid" test after
- * get_user_data() looks at uob->interactive instead of reading the interactive_t that remove_interactive() has just
- * freed (process_io reads ip->ob of the freed struct at comm.c "ip->ob may be invalid after get_user_data":
- * heap-use-after-free under ASan on every peer FIN; not part of C14).  Used by `peerfin`; `peerfin_raw` runs the
- * real process_io(). */
-static void poll_and_dispatch_safe (void)
-{
-  error_context_t econ;
-  struct timeval tv = { 0, 0 };
-  eval_cost = CONFIG_INT (__MAX_EVAL_COST__);
-  VH_TRY (econ)
-    int n = do_comm_polling (&tv);
-    for (int i = 0; i < n; i++)
-      {
-        io_event_t *evt = &g_io_events[i];
-        interactive_t *ip = uob->interactive;
-        if (!ip || evt->context != (void *) ip)
-          continue;
-        if (evt->event_type & (EVENT_ERROR | EVENT_CLOSE))
-          {
-            remove_interactive (ip->ob, 0);
-            continue;
-          }
-        if (evt->event_type & EVENT_READ)
-          {
-            get_user_data (ip, evt);
-            if (uob->interactive != ip)
-              continue;
-          }
-        if (evt->event_type & EVENT_WRITE)
-          flush_message (ip);
-      }
-    g_num_io_events = 0;
   VH_CATCH (econ)
     out ("lpcerr");
   VH_END
@@ -330,7 +281,7 @@ static int c14_cmd (char *line)
   int existed;
 #define IS(s) (clen == strlen (s) && !strncmp (line, s, clen))
   if (!(IS ("sendres") || IS ("write") || IS ("vwrite") || IS ("flush") || IS ("cycle") || IS ("wready") || IS ("close")
-        || IS ("peerclose") || IS ("peerfin") || IS ("peerfin_raw") || IS ("dump")))
+        || IS ("peerclose") || IS ("peerfin") || IS ("dump")))
     return 0;
   while (arg && *arg == ' ')
     arg++;
@@ -426,14 +377,11 @@ static int c14_cmd (char *line)
         }
       poll_and_process ();
     }
-  else if (IS ("peerfin") || IS ("peerfin_raw"))
+  else if (IS ("peerfin"))
     {
       if (c14_peer_open)
         shutdown (c14_fd[1], SHUT_WR);
-      if (IS ("peerfin_raw"))
-        poll_and_process ();
-      else
-        poll_and_dispatch_safe ();
+      poll_and_process ();
     }
   st_line (existed);
   return 1;
